@@ -42,6 +42,7 @@ class Recorder:
         self.applied_est = {}
         self.est_delivered = []                  # ids delivered to estimate agents in this phase
         self.bias_end_emitted = False
+        self.all_targets = set(app.target_agents)   # every id that ever was a target (labels stay stable)
         self.events: list[dict] = []
         self.k = 0
         self.saved_this_step = True   # the initial save belongs to "step 0"
@@ -183,7 +184,7 @@ def install():
     # -- job merges ----------------------------------------------------------------------
     _wrap(ap.PropagateRegistration, "processResults", None,
           lambda r, self, a, k, res: r.emit(
-              "CompletePropagate", a=(T if self._registrant.simulation_id in r.app.target_agents else S)(
+              "CompletePropagate", a=(T if self._registrant.simulation_id in r.all_targets else S)(
                   self._registrant.simulation_id), at=r.step_of(self._registrant.time),
               applied=sorted(r.applied_truth.pop(self._registrant.simulation_id, []))))
     _wrap(ap.PropagateExecutor, "join", None, lambda r, self, a, k, res: r.emit("JoinPropagate"))
@@ -283,6 +284,7 @@ def install():
         if isinstance(inst, EstimateAgent):
             r.est_delivered.append(eid)
             return
+        r.all_targets |= set(r.app.target_agents)
         if self.event_type in ("target_addition", "sensor_addition", "agent_removal"):
             is_t = self.event_type == "target_addition" or getattr(self, "agent_type", "") == "target"
             handler = (T if is_t else S)(self.agent_id)
@@ -291,7 +293,7 @@ def install():
         elif self.event_type == "sensor_time_bias":
             handler = S(inst.simulation_id)
         else:
-            handler = T(inst.simulation_id) if inst.simulation_id in r.app.target_agents else S(inst.simulation_id)
+            handler = T(inst.simulation_id) if inst.simulation_id in r.all_targets else S(inst.simulation_id)
         r.emit("Deliver", id=eid, handler=handler)
 
     def all_subclasses(c):
@@ -358,7 +360,8 @@ def audit_db(r: Recorder, app) -> dict:
         def kof(jd):
             return int(round((float(jd) - jd0) * 86400.0 / r.dt))
         out["epochs"] = sorted(kof(row[0]) for row in q("SELECT julian_date FROM epochs"))
-        tids = set(app.target_agents)
+        r.all_targets |= set(app.target_agents)
+        tids = r.all_targets
         out["truth"] = sorted([kof(jd), (T if aid in tids else S)(aid), n] for jd, aid, n in
                               q("SELECT julian_date, agent_id, COUNT(*) FROM truth_ephemerides GROUP BY julian_date, agent_id"))
         out["est"] = sorted([kof(jd), T(aid), n] for jd, aid, n in
